@@ -23,13 +23,28 @@ def main(argv):
         if getattr(mod, "INSTALL_HOOKS", True):
             hooks.install(**getattr(mod, "HOOKS", {}))
         from vf.ctx import Ctx
+        from vf import run as vrun
         ctx = Ctx(prop, tier, shard, nshards, seed, replay=bool(replay_file))
+        if getattr(mod, "SHADOW", True) and not replay_file:
+            vrun.SHADOW.update(p=float(os.environ.get("VF_SHADOW_P", "0.03")), rng=ctx.sub_rng("shadow", shard))
         if replay_file:
             rec = json.load(open(replay_file))
-            mod.check_case(ctx, rec["case"])
-            ctx.evaluated(0)
+            if isinstance(rec.get("case"), dict) and rec["case"].get("gen") == "shadow":
+                c = rec["case"]
+                vrun.SHADOW.update(p=1.0, rng=ctx.sub_rng("shadow", 0))
+                vrun.parse(c["ddl"], c.get("ctor") or {}, **(c.get("run_kw") or {}))
+                ctx.evaluated(3)
+            else:
+                mod.check_case(ctx, rec["case"])
+                ctx.evaluated(0)
         else:
             mod.run_shard(ctx)
+        for f in vrun.SHADOW["found"]:
+            from vf.util import short
+            ctx.violation("same_call_differs:" + f["path"].split("(")[0].strip().replace(" ", "_"), {"gen": "shadow", "ddl": f["ddl"], "ctor": f["ctor"], "run_kw": f["run_kw"]},
+                          {"path": f["path"], "observed": short(f["observed"], 300), "plain_call": short(f["first_call"], 300)})
+        ctx.obs["shadow_repeats_of_parse_calls"] += vrun.SHADOW["n"]
+        ctx.evaluated(2 * vrun.SHADOW["n"])
         res.update(ctx.result())
         st = hooks.STATE
         res["hooks"] = st.summary()
